@@ -102,6 +102,9 @@ def generate(rng, tier):
                     if fmt == "lod-json" and rng.random() < 0.15: continue   # ragged
                     it[k] = rng.choice([None, True, 3, 2.5, "s", rng.choice(pool), [1, "x", None], {"n": {"m": [1.5]}}, -7, 10**20])
                 items.append(it)
+        if rng.random() < 0.02 and items and keys and suffix in ("", ".gz"):
+            items[rng.randrange(len(items))][keys[0]] = ("long text " * 10 + "\n") * (rng.choice([140_000, 1_300_000]) // 101)
+            case["huge_cell"] = True
         case["items"] = items
         if rng.random() < 0.3:
             case["history"] = rng.choice(["add", "delete", "append"])
@@ -134,6 +137,16 @@ def generate(rng, tier):
             vals = gen.gen_values(rng, kind, n, na, "few", 0.3)
         odd = ["a b", "x,y", "col" + str(j)] + ([] if enc in ("latin-1", "cp1252") else ["日本"])
         spec.append((f"c{j}" if rng.random() < 0.8 else rng.choice(odd) + str(j), kind, vals))
+    if rng.random() < 0.02 and suffix in ("", ".gz"):
+        # one very long text value (a document body, a geometry as text): beyond the csv module's field limit / a parser's block size
+        strcols = [j for j, (_, k, _) in enumerate(spec) if k == "str"]
+        if strcols:
+            j = rng.choice(strcols)
+            name, kind, vals = spec[j]
+            vals = list(vals)
+            vals[rng.randrange(n)] = ("long text " * 10 + "\n") * (rng.choice([140_000, 1_300_000, 2_600_000]) // 101)
+            spec[j] = (name, kind, vals)
+            case["huge_cell"] = True
     case["spec"] = spec
     if fmt == "json" and any(k == "date" for _, k, _ in spec):
         pass
@@ -168,6 +181,9 @@ def execute(case):
     for k, v in opts.items():
         res.cls(f"opt:{k}")
     feat = f"{fmt}:{suffix or 'plain'}"
+    if case.get("huge_cell"):
+        res.cls("huge-cell")
+        feat += ":huge-cell"
     if fmt.startswith("lod-"):
         items = case["items"]
         res.sig = f"{fmt}|{suffix}|{sorted(opts.items())}|{len(items)}"
